@@ -228,10 +228,17 @@ def run_builder_xi(spec, props):
     def call(orc):
         tab = orc.ctx.setdefault("tab", {})
 
+        rt = spec.get("rule_returns", "bool")
+
         def transmission(x, z):
             k = (x - 10, z - 20)
             if k not in tab:
                 tab[k] = orc.pick("transmission", [True, False], info=("transmission",) + k)
+            # the rule's answer is a truth value: Python bool, numpy.bool_ (what comparisons of numpy floats give) or 0/1
+            if rt == "npbool":
+                return np.bool_(tab[k])
+            if rt == "int":
+                return 1 if tab[k] else 0
             return tab[k]
         if fn == "nonMarkov_directed_percolate_network":
             return EoN.nonMarkov_directed_percolate_network(G, xi2, zeta2, transmission)
@@ -397,17 +404,45 @@ def specs_c17(tier):
         g4l = [(4, es) for es in gr.labelled_digraphs(4)]
         for i in range(0, len(g4l), 128):
             out.append(dict(kind="from_dir_perc", graphs=g4l[i:i + 128]))
+    # disjoint unions of two or three small digraph shapes (several components, the largest SCC not in the largest piece, ties)
+    small = [(n, es) for n in (1, 2, 3) for es in gr.digraph_shapes(n)]
+    unions = []
+    for (a, ea), (b, eb) in itertools.product(small, small):
+        if a + b <= 6 and (ea or eb):
+            unions.append((a + b, list(ea) + [(u + a, v + a) for (u, v) in eb]))
+    for (a, ea), (b, eb), (c, ec) in itertools.product(small[:8], small[:8], small[:8]):
+        if a + b + c <= 6 and (ea or eb or ec) and not thorough and (a, b, c) != (1, 1, 1):
+            unions.append((a + b + c, list(ea) + [(u + a, v + a) for (u, v) in eb] + [(u + a + b, v + a + b) for (u, v) in ec]))
+    # an acyclic 4- or 5-node piece next to a 2-cycle / triangle
+    for big in ([(0, 1), (0, 2), (0, 3)], [(0, 1), (1, 2), (2, 3)], [(0, 1), (0, 2), (0, 3), (0, 4)], [(0, 1), (1, 2), (2, 3), (3, 4)]):
+        nb = max(max(e) for e in big) + 1
+        for cyc in ([(0, 1), (1, 0)], [(0, 1), (1, 2), (2, 0)]):
+            nc = max(max(e) for e in cyc) + 1
+            unions.append((nb + nc, list(big) + [(u + nb, v + nb) for (u, v) in cyc]))
+            unions.append((nb + nc, list(cyc) + [(u + nc, v + nc) for (u, v) in big]))
+    for i in range(0, len(unions), 40):
+        out.append(dict(kind="from_dir_perc", graphs=unions[i:i + 40]))
     und = [(n, es) for n, es in gr.small_graphs(3)] + [(4, es) for es in gr.shapes(4)]
+    # disjoint unions of small trees/cycles in both orders (the largest component need not contain the highest-degree node)
+    pieces = [gr.NAMED["P2"], gr.NAMED["P3"], gr.NAMED["K3"], gr.NAMED["S4"], gr.NAMED["P4"], gr.NAMED["P5"]]
+    for (a, ea), (b, eb) in itertools.product(pieces, pieces):
+        if a + b <= 9 and a != b:
+            und.append((a + b, list(ea) + [(u + a, v + a) for (u, v) in eb]))
     if thorough:
         und += [(5, es) for es in gr.shapes(5) if len(es) <= 7]
     for n, es in und:
         for p in (0.0, 0.3, 1.0):
+            if p == 0.3 and len(es) > 6:
+                continue
             out.append(dict(kind="undirected", n=n, edges=es, p=p))
     small = [gr.NAMED[k] for k in ("P2", "P3", "K3")] + [(3, [(0, 1)])]
     for n, es in small + ([gr.NAMED["S4"], gr.NAMED["P4"], gr.NAMED["C4"]] if thorough else [gr.NAMED["S4"]]):
         for fn in ("nonMarkov_directed_percolate_network", "estimate_nonMarkov_SIR_prob_size"):
             for cont in ("dict", "defaultdict"):
                 out.append(dict(kind="xi", fn=fn, n=n, edges=es, container=cont))
+            if n <= 3:
+                for rt in ("npbool", "int"):
+                    out.append(dict(kind="xi", fn=fn, n=n, edges=es, container="dict", rule_returns=rt))
         m = [0, 1, "inf"] if len(es) >= 3 else [0, 1, 2, "inf"]
         out.append(dict(kind="timing", fn="estimate_nonMarkov_SIR_prob_size_with_timing", n=n, edges=es, menu=m if n <= 3 else [1, 2]))
         out.append(dict(kind="markov", fn="estimate_directed_SIR_prob_size", n=n, edges=es, tau=0.3, gamma=0.7, menu=[0.5, 1.6]))
